@@ -51,6 +51,13 @@ def run(P, rep, tier):
     rep.floor("C13.R2", 2)
     rep.floor("C13.R3", 4)
     rep.floor("C13.R4", 2)
+    # refinement against the pinned tree for every function the rules above looked at (rules/pinned.py)
+    import os as _os
+
+    if not _os.environ.get("MDSA_PINNED_GEN"):
+        from .pinned import refine
+
+        refine(P, rep, ctx, "C13")
 
 
 def r1_wiring(P, rep, ctx):
